@@ -328,6 +328,27 @@ def check_regmap(desc, res):
     lfields = {k: v.value.data for k, v in op.launch_fields.data.items()}
     barrier = op.barrier.value.data
     owners = {}
+    if desc[0] == "gemmini":
+        # RoCC: one instruction carries X.rs1 and X.rs2, so the two halves must declare the same funct7 (otherwise one of them cannot
+        # reach its declared place), and different instructions must declare different ones
+        R.bump(res, "regmaps_checked_rocc")
+        by_insn = {}
+        for k, a in list(fields.items()) + list(lfields.items()):
+            if not k.endswith((".rs1", ".rs2")):
+                out.append({"kind": "register-map-not-injective", "detail": f"RoCC field {k} is neither an rs1 nor an rs2 half", "case": {"desc": desc, "regmap": True}})
+                continue
+            by_insn.setdefault(k[:-4], {})[k[-3:]] = a
+        seen_f7 = {}
+        for insn, halves in by_insn.items():
+            if len(set(halves.values())) != 1 or set(halves) != {"rs1", "rs2"}:
+                out.append({"kind": "register-map-not-injective", "detail": f"RoCC instruction {insn}: halves declare {halves}", "case": {"desc": desc, "regmap": True}})
+            f7 = next(iter(halves.values()))
+            if f7 in seen_f7:
+                out.append({"kind": "register-map-not-injective", "detail": f"funct7 {f7} shared by instructions {seen_f7[f7]} and {insn}", "case": {"desc": desc, "regmap": True}})
+            seen_f7.setdefault(f7, insn)
+        if not out:
+            R.nontrivial(res, "regmap", repr(desc))
+        return out
 
     def claim(addr, who):
         if addr in owners:
@@ -563,7 +584,7 @@ def run_shard(seed, shard, n_cases, tier):
     rng = random.Random(seed)
     nsh = TIERS[tier]["shards"]
     # monitor 2: exhaustive uniform box, split over shards
-    box = list(AD.uniform_box("alu")) + list(AD.uniform_box("xdma")) + [("hwpe", None, None), ("alu", None, None), ("gemmx", None, None), ("xdma", None, None)]
+    box = list(AD.uniform_box("alu")) + list(AD.uniform_box("xdma")) + [("hwpe", None, None), ("alu", None, None), ("gemmx", None, None), ("xdma", None, None), ("gemmini", None, None)]
     for i, d in enumerate(box):
         if i % nsh == shard:
             for v in check_regmap(d, res):
